@@ -207,6 +207,16 @@ fn check(case: &Case) -> Outcome {
                     acc.check(mk == *k1, || format!("C09:{name}:ecdh:derivation"), || format!("ECDH(peer={}) = {} but the documented derivation (the value the peer computes) gives {}", hex(&peer_bytes), hex(k1), hex(&mk)));
                 } else {
                     acc.tag(if mk == *k1 { "failure_kdf_matches_documented_derivation" } else { "failure_kdf_differs_from_documented_derivation" });
+                    // "a key that depends on the local secret" / "unguessable by outsiders": the failure key must not be what an
+                    // outsider obtains by running the documented derivation on public data in place of the secret
+                    let mut peer32 = peer_bytes.clone();
+                    peer32.resize(32, 0);
+                    for tag in [0x46u8, 0x53] {
+                        for (what, x) in [("zeros / the encoding of the neutral", vec![0u8; 32]), ("the peer bytes", peer32.clone()), ("the local public key", pk1.clone())] {
+                            let guess = sch.ecdh_kdf(&pk1, &peer_bytes, tag, &x);
+                            acc.check(guess != *k1, || format!("C09:{name}:ecdh:failure_key_public"), || format!("ECDH(peer={}) failed with key {} = KDF(public keys, tag {tag:#x}, {what}): computable without the local secret", hex(&peer_bytes), hex(k1)));
+                        }
+                    }
                 }
             }
         }
